@@ -677,10 +677,12 @@ def scalefactor(ctx, mod):
             raise Unrecognised('not a plain comprehension: %s' % unparse(comp))
         g = comp.generators[0]
         elt = comp.elt
-        if not (isinstance(elt, ast.Call) and call_name(elt) == 'len' and isinstance(elt.args[0], ast.Subscript)
-                and unparse(elt.args[0].slice) == unparse(g.target)):
+        if isinstance(elt, ast.Call) and call_name(elt) == 'len' and isinstance(elt.args[0], ast.Subscript) and unparse(elt.args[0].slice) == unparse(g.target):
+            L = unparse(elt.args[0].value)
+        elif isinstance(elt, ast.Subscript) and unparse(elt.slice) == unparse(g.target) and isinstance(elt.value, ast.Attribute) and elt.value.attr == 'shape':
+            L = unparse(elt.value)        # number of configurations the input itself has on that replica
+        else:
             raise Unrecognised('summand is not len(L[name]): %s' % unparse(elt))
-        L = unparse(elt.args[0].value)
         V = g.iter
         if isinstance(V, ast.Name):
             defs = [s for s in statements(f) if isinstance(s, ast.Assign) and isinstance(s.targets[0], ast.Name) and s.targets[0].id == V.id]
@@ -959,6 +961,8 @@ def run(ctx):
     ctx.guarded('C01-D5', 'obs.py:_expand_deltas_for_merge', expand_for_merge, ctx, obs)
     ctx.guarded('C01-D5', 'obs.py:derived_observable@alignment', derived_alignment, ctx, obs)
     ctx.guarded('C01-D6', 'obs.py:_compute_scalefactor_missing_rep', scalefactor, ctx, obs)
+    from . import C04
+    ctx.guarded('C01-D5', 'obs.py:_merge_idx', C04.merge_idx_rules, ctx, obs, 'C01-D5', (('_merge_idx', 'union'),))
     ctx.guarded('C01-D7', 'obs.py:derived_observable@wiring', wiring, ctx, obs)
 
 
@@ -980,6 +984,7 @@ SELFTEST = [
     ('expand-wrong-object', 'pyerrors/obs.py', "_expand_deltas_for_merge(obs.deltas[name], obs.idl[name], obs.shape[name], new_idl_d[name]", "_expand_deltas_for_merge(obs.deltas[name], data.ravel()[0].idl[name], obs.shape[name], new_idl_d[name]", 'C01-D5'),
     ('scalefactor-own-lengths', 'pyerrors/obs.py', "/ sum([len(new_idl_d[name]) for name in mc_idl_d])", "/ sum([len(obs.idl[name]) for name in mc_idl_d])", 'C01-D6'),
     ('scalefactor-condition', 'pyerrors/obs.py', "if len(mc_idl_d) > 0 and len(mc_idl_d) < len(new_mc_idl_d):", "if len(mc_idl_d) > 1 and len(mc_idl_d) < len(new_mc_idl_d):", 'C01-D6'),
+    ('merge-idx-weak-range-test', 'pyerrors/obs.py', "    idtest = [list(idrange), idunion]\n    if _check_lists_equal(idtest):\n        return idrange\n\n    return idunion", "    if idrange[-1] == idunion[-1] and len(idrange) == len(idunion):\n        return idrange\n\n    return idunion", 'C01-D5'),
     ('deriv-index-swapped', 'pyerrors/obs.py', "new_grad[name] = new_grad.get(name, 0) + deriv[i_val + j_obs] * obs.covobs[name].grad", "new_grad[name] = new_grad.get(name, 0) + deriv[j_obs + i_val] * obs.covobs[name].grad", 'C01-D7'),
     ('value-from-rvalues', 'pyerrors/obs.py', "tmp_values[i] = item.r_values.get(name, item.value)", "tmp_values[i] = item.r_values.get(name, 0.0)", 'C01-D7'),
     # behaviour preserving edits: must stay silent
